@@ -11,6 +11,9 @@ let runs : (string * (n list -> n list)) list = [
   "FRG", run_FRG;
   "REA", run_REA;
   "BLD", run_BLD;
+  "RCV", run_RCV;
+  "LNK", run_LNK;
+  "SND", run_SND;
 ]
 let twos : (string * (n list -> n list -> n list)) list = [
   "view_C03", view_C03;
@@ -23,6 +26,14 @@ let twos : (string * (n list -> n list -> n list)) list = [
   "ok_C11_EV", ok_C11_EV;
   "view_C12", view_C12;
   "ok_C12", ok_C12;
+  "view_C06", view_C06;
+  "ok_C06", ok_C06;
+  "view_C13", view_C13;
+  "ok_C13", ok_C13;
+  "view_C19", view_C19;
+  "ok_C19", ok_C19;
+  "view_C14", view_C14;
+  "ok_C14", ok_C14;
   "view_C10", view_C10;
   "ok_C10", ok_C10;
   "view_C02", view_C02;
